@@ -38,7 +38,31 @@ def minmax(interp, argv, is_max):
 
 
 def sorted_(interp, argv, kwv):
-    raise Undecided('sorted()')
+    """trusted contract of sorted() over the keys of an int-keyed dict: an ascending, duplicate-free
+    enumeration of exactly the keys (a dict has no duplicate keys)"""
+    v = argv[0]
+    if kwv:
+        raise Undecided('sorted() with key/reverse')
+    if v.kind == 'keys' and v.what == 'keys' and v.base.kind in ('snap', 'tte'):
+        g = v.base.g
+        member = g['SKey'] if v.base.kind == 'snap' else g['TKey']
+        return sorted_int_set(interp.ctx, lambda q: member[q], lambda q: [member[q]], 'sorted_' + v.base.kind)
+    items = interp.static_items(v)
+    if items is not None and all(x.kind == 'int' for x in items) and len(items) <= 1:
+        return VList(items)
+    raise Undecided('sorted() of %s' % v.kind)
+
+
+def sorted_int_set(ctx, member, pattern, name):
+    n = fresh(name + '.n', Int)
+    f = fresh_fun(name + '.at', Int, Int)
+    idx = fresh_fun(name + '.idx', Int, Int)
+    i, j, q = z3.Int('i?so'), z3.Int('j?so'), z3.Int('q?so')
+    ctx.assume(n >= 0, 'seq')
+    ctx.assume(z3.ForAll([i, j], z3.Implies(z3.And(0 <= i, i < j, j < n), f(i) < f(j)), patterns=[z3.MultiPattern(f(i), f(j))]), 'seq')
+    ctx.assume(z3.ForAll([i], z3.Implies(inb(i, n), member(f(i))), patterns=[f(i)]), 'seq')
+    ctx.assume(z3.ForAll([q], z3.Implies(member(q), z3.And(inb(idx(q), n), f(idx(q)) == q)), patterns=pattern(q)), 'seq')
+    return VSeq(n, lambda k: VInt(f(k)), {'elem_kind': 'int', 'sorted': True, 'f': f, 'idx': idx, 'member': member})
 
 
 def sum_(interp, argv):
